@@ -28,6 +28,10 @@ type result struct {
 	rows     [][]Value
 	affected int64
 	lastID   int64
+	// fault "breakrows": Next fails with breakErr once breakAfter rows were delivered
+	breakSet   bool
+	breakAfter int
+	breakErr   error
 }
 
 // runSQL executes a (possibly multi-statement) string; s.mu is held.
